@@ -79,6 +79,9 @@ func (s *ServiceExpr) Hash() string {
 // Validate validates the service methods and errors.
 func (s *ServiceExpr) Validate() error {
 	verr := new(eval.ValidationErrors)
+	if s.Name == "" {
+		verr.Add(s, "service name cannot be empty")
+	}
 	for _, e := range s.Errors {
 		if err := e.Validate(); err != nil {
 			var verrs *eval.ValidationErrors
